@@ -1,4 +1,4 @@
-import H2V.Lemmas.ConnRecvPConn
+import H2V.Lemmas.ConnRecvPPoll
 /-
   C03 — Receive windows are conserved: never over-credited, never leaked.
   Property theorems only (lemmas: `H2V/Lemmas/ConnRecvP*.lean`, notes: `ConnRecvPNOTES.md`).
@@ -235,6 +235,34 @@ example : Reach Ghost.init (runOps leakStart (leakOps.take 6)) ∧
 example : cI (runOps leakStart leakOps) = 0 ∧ cA (runOps leakStart leakOps) = 65535 :=
   ⟨pushed_stream_data_credited_back.2.1, pushed_stream_data_credited_back.2.2.1⟩
 
+/-- **11. Every connection, whatever the peer, the transport and the application do.**  `CReach T H c`:
+    the connection `c` (codec, SETTINGS/PING/GOAWAY state machines and stream layer: `Conn` of
+    `ConnProto.lean`) is reachable from a new client or server connection — built with legal window
+    sizes — through any sequence of `Connection::poll` (any octets from the peer, chopped in any way,
+    any write back-pressure), `set_target_window_size` / `set_initial_window_size` (≤ 2^31-1),
+    graceful or abrupt shutdown, pings, and calls the handles make on the stream layer; `T` is the
+    connection window the application configured last, `H` the largest so far.  Then the connection's
+    books balance: `available + in_flight_data = T`, the advertised window is never negative and
+    `window + in_flight_data ≤ H ≤ 2^31-1`, and the streams together hold at most what the
+    connection counts as in flight.  (This is theorems 1–2 without the hand-made list of stream-layer
+    calls: `recv_frame`, `poll2`, `poll`, the SETTINGS ACK path … are proved to make only such calls,
+    with valid arguments — in particular `apply_local_settings` only ever gets the values this
+    endpoint sent.) -/
+theorem every_connection_window_conserved {T H : Nat} {c : Conn} (h : CReach T H c) :
+    cA c.streams + (cI c.streams : Int) = (T : Int) ∧ 0 ≤ cW c.streams ∧
+    cW c.streams + (cI c.streams : Int) ≤ (H : Int) ∧ H ≤ 2147483647 ∧
+    sumInfl c.streams.store.slab ≤ cI c.streams := by
+  obtain ⟨g, hi, ht, hh⟩ := creach_inv h
+  rw [← ht, ← hh]
+  exact ⟨hi.cons, hi.w0, hi.wI, hi.hiMax, by have := hi.sum; omega⟩
+
+/-- non-vacuity: a new client connection, the window raised to 200 000, polled once -/
+example : CReach 200000 200000
+    ((COp.clientPoll 100).apply ((COp.setTargetWindowSize 200000).apply (Conn.init {}))) :=
+  .step (.clientPoll 100)
+    (.step (.setTargetWindowSize 200000) (.client {} ⟨fun _ h => (nomatch h), fun _ h => (nomatch h)⟩)
+      (show (200000 : Nat) ≤ 2147483647 by decide)) trivial
+
 end H2V.Props.C03
 
 #print axioms H2V.Props.C03.connection_window_conserved
@@ -247,3 +275,4 @@ end H2V.Props.C03
 #print axioms H2V.Props.C03.stream_window_update_exact
 #print axioms H2V.Props.C03.stream_window_restored
 #print axioms H2V.Props.C03.dropped_stream_credited_exactly_once
+#print axioms H2V.Props.C03.every_connection_window_conserved
